@@ -134,7 +134,7 @@ Fixpoint frag_expr (fuel : nat) (e : expr) {struct fuel} : bool :=
     match e with
     | Ex ei _ _ =>
       match ei with
-      | ETrue | EFalse | ENumU _ | ENumS _ | EId _ | ERange _ _ _ => true
+      | ETrue | EFalse | ENumU _ _ | ENumS _ _ | EId _ | ERange _ _ _ => true
       | EArrLit es | ETupLit es | EEnumLit _ _ es | ECall _ es => forallb (frag_expr f) es
       | EArrRep e1 _ | ETupAcc e1 _ | EFld e1 _ | ENeg e1 | ENot e1 | ECast _ e1 => frag_expr f e1
       | EIdx a i => frag_expr f a && frag_expr f i
